@@ -482,6 +482,8 @@ class Evaluator:
             return [list(t) for t in zip(*args)]
         if name == "len" and args and isinstance(args[0], (list, tuple)):
             return len(args[0])
+        if name == "bool" and len(args) == 1 and (isinstance(args[0], (list, tuple)) or is_conc(args[0])):
+            return bool(args[0])
         if name in ("min", "max", "abs") and all(is_conc(a) for a in args):
             return {"min": min, "max": max, "abs": abs}[name](*args)
         return Sym(f"{name}(..)", argtags | kwtags | {("call", name), ("callpos", name, tuple(_txt(a) for a in args))})
